@@ -1,6 +1,7 @@
 package keeper
 
 import (
+	ordertypes "github.com/SaoNetwork/sao/x/order/types"
 	sdk "github.com/cosmos/cosmos-sdk/types"
 )
 
@@ -19,6 +20,11 @@ func (k Keeper) HandleExpiredShard(ctx sdk.Context, shardId uint64) {
 	if len(shard.RenewInfos) == 0 {
 		k.node.ShardRelease(ctx, sdk.MustAccAddressFromBech32(shard.Sp), &shard)
 		k.order.RemoveShard(ctx, shardId)
+		// a hand-over of this shard that its new provider never completed has nothing left to take
+		// over: the migrating shard goes with the shard it was to replace
+		if k.dropOpenHandOver(ctx, &order, shardId, shard.Sp) && len(order.Shards) == 1 && order.Shards[0] != shardId {
+			k.order.SetOrder(ctx, order)
+		}
 	} else {
 		nextOrderInfo := shard.RenewInfos[0]
 
@@ -73,4 +79,83 @@ func (k Keeper) HandleExpiredShard(ctx sdk.Context, shardId uint64) {
 			k.order.RemoveOrder(ctx, order.Id)
 		}
 	}
+}
+
+// dropOpenHandOver removes the hand-over of a shard that has reached the end of its last paid
+// period: the shards still migrating in from its provider sp under an order that lists the expired
+// shard. They are taken off the list of every order of the data model and deleted. The list of the
+// given order is shortened in place (the caller stores or removes that order); it reports whether
+// that list changed.
+func (k Keeper) dropOpenHandOver(ctx sdk.Context, order *ordertypes.Order, shardId uint64, sp string) bool {
+	ids := []uint64{order.Id}
+	if meta, found := k.model.GetMetadata(ctx, order.DataId); found {
+		for _, id := range meta.Orders {
+			if id != order.Id {
+				ids = append(ids, id)
+			}
+		}
+	}
+	orders := make([]ordertypes.Order, 0, len(ids))
+	seen := map[uint64]bool{}
+	for _, id := range ids {
+		if seen[id] {
+			continue
+		}
+		seen[id] = true
+		if id == order.Id {
+			orders = append(orders, *order)
+		} else if o, found := k.order.GetOrder(ctx, id); found {
+			orders = append(orders, o)
+		}
+	}
+
+	gone := map[uint64]bool{}
+	goneIds := make([]uint64, 0)
+	for _, o := range orders {
+		lists := false
+		for _, sid := range o.Shards {
+			if sid == shardId {
+				lists = true
+			}
+		}
+		if !lists {
+			continue
+		}
+		for _, sid := range o.Shards {
+			s, found := k.order.GetShard(ctx, sid)
+			if found && !gone[sid] && s.Status == ordertypes.ShardMigrating && s.From == sp {
+				gone[sid] = true
+				goneIds = append(goneIds, sid)
+			}
+		}
+	}
+	if len(goneIds) == 0 {
+		return false
+	}
+	for _, sid := range goneIds {
+		k.order.RemoveShard(ctx, sid)
+	}
+
+	changed := false
+	for _, o := range orders {
+		kept := make([]uint64, 0, len(o.Shards))
+		for _, sid := range o.Shards {
+			if !gone[sid] {
+				kept = append(kept, sid)
+			}
+		}
+		if len(kept) == len(o.Shards) {
+			continue
+		}
+		if o.Id == order.Id {
+			order.Shards = kept
+			changed = true
+		} else if len(kept) == 0 {
+			k.order.RemoveOrder(ctx, o.Id)
+		} else {
+			o.Shards = kept
+			k.order.SetOrder(ctx, o)
+		}
+	}
+	return changed
 }
